@@ -546,7 +546,41 @@ func g7NewName(r *Repo, rep *Report) {
 		return
 	}
 	condVars := map[types.Object]bool{}
+	condTables := map[string]bool{} // tables whose membership is asked by a call in the condition itself (always fresh)
 	pureDisj := true
+	// membership(recv, key): a method `func (s T) has(k K) bool { _, ok := s[k]; return ok }` of this package
+	isMembership := func(c *ast.CallExpr) (table string, ok bool) {
+		fn, isFn := callee(info, c).(*types.Func)
+		if !isFn || len(c.Args) != 1 {
+			return "", false
+		}
+		d := r.Decls[fn]
+		if d == nil || d.Decl.Recv == nil || len(d.Decl.Recv.List) != 1 || len(d.Decl.Recv.List[0].Names) != 1 || d.Decl.Body == nil || len(d.Decl.Body.List) != 2 {
+			return "", false
+		}
+		recv := d.Decl.Recv.List[0].Names[0].Name
+		var param string
+		if d.Decl.Type.Params.NumFields() == 1 && len(d.Decl.Type.Params.List[0].Names) == 1 {
+			param = d.Decl.Type.Params.List[0].Names[0].Name
+		}
+		as, ok1 := d.Decl.Body.List[0].(*ast.AssignStmt)
+		ret, ok2 := d.Decl.Body.List[1].(*ast.ReturnStmt)
+		if !ok1 || !ok2 || len(as.Lhs) != 2 || len(as.Rhs) != 1 || len(ret.Results) != 1 || exprStr(as.Rhs[0]) != recv+"["+param+"]" || exprStr(ret.Results[0]) != exprStr(as.Lhs[1]) {
+			return "", false
+		}
+		sel, isSel := ast.Unparen(c.Fun).(*ast.SelectorExpr)
+		if !isSel {
+			return "", false
+		}
+		tsel, isSel := ast.Unparen(sel.X).(*ast.SelectorExpr)
+		if !isSel {
+			return "", false
+		}
+		if kid, isID := ast.Unparen(c.Args[0]).(*ast.Ident); !isID || info.Uses[kid] != nameVar {
+			return "", false
+		}
+		return tsel.Sel.Name, true
+	}
 	var collect func(e ast.Expr)
 	collect = func(e ast.Expr) {
 		switch x := ast.Unparen(e).(type) {
@@ -559,12 +593,23 @@ func g7NewName(r *Repo, rep *Report) {
 			pureDisj = false
 		case *ast.Ident:
 			condVars[info.Uses[x]] = true
+		case *ast.CallExpr:
+			if t, ok := isMembership(x); ok {
+				condTables[t] = true
+			} else {
+				pureDisj = false
+			}
 		default:
 			pureDisj = false
 		}
 	}
 	collect(loop.Cond)
 	for _, table := range []string{"funcToTyps", "reserved"} {
+		if condTables[table] && pureDisj {
+			// asked in the condition itself, with the current candidate: nothing can be stale
+			rep.pass("G7")
+			continue
+		}
 		// an ok-variable of this table must be in the loop condition, and must be refreshed
 		// (a) before the loop after the last pre-loop definition of the name, and (b) in the body after the last in-body definition.
 		var v types.Object
@@ -742,6 +787,7 @@ func g7Reserved(r *Repo, rep *Report) {
 		return
 	}
 	// stores into resVar: `reserved = ...`, `reserved[k] = ...`, or passing it to union(...) as first arg
+	resPar := parents(fi.Decl)
 	var stores []token.Pos
 	feedsFuncNames := false
 	ast.Inspect(fi.Decl.Body, func(n ast.Node) bool {
@@ -754,11 +800,20 @@ func g7Reserved(r *Repo, rep *Report) {
 				}
 				if id, ok := root.(*ast.Ident); ok && info.Uses[id] == resVar && x.Tok != token.DEFINE {
 					stores = append(stores, x.Pos())
-					if nodeHas(x, func(m ast.Node) bool {
-						s, ok := m.(*ast.SelectorExpr)
-						return ok && s.Sel.Name == "funcNames"
-					}) {
+					mentions := func(n ast.Node) bool {
+						return nodeHas(n, func(m ast.Node) bool {
+							s, ok := m.(*ast.SelectorExpr)
+							return ok && s.Sel.Name == "funcNames"
+						})
+					}
+					if mentions(x) {
 						feedsFuncNames = true
+					}
+					// reserved[name] = … inside `for name := range <file>.funcNames`
+					for p := resPar[x]; p != nil; p = resPar[p] {
+						if rs, ok := p.(*ast.RangeStmt); ok && mentions(rs.X) {
+							feedsFuncNames = true
+						}
 					}
 				}
 			}
